@@ -127,6 +127,17 @@ func shapeScripts(seed int64) []Driver {
 				}
 			}
 		}
+		// the one send a non-streaming request allows fails (the message cannot be encoded), then
+		// the application sends again: refused, nothing more on the wire (real client, real server)
+		for _, shape := range []string{"U", "SS", "CS"} {
+			for _, fc := range []bool{true, false} {
+				l := []string{"open t=0 md=who=s peer=p0", "ds t=0", "dc t=0", "ds t=0",
+					fmt.Sprintf("cnew r=0 t=0 shape=%s method=auto md=-", shape), "dc t=0",
+					"csend r=0 size=10 bad=1", "csend r=0 size=30", "dc t=0", "csend r=0 size=31", "dc t=0", "cclose r=0", "dc t=0",
+					"hrecv r=0", "hrecv r=0", "hrecv r=0", "hret r=0 code=0 size=12", "ds t=0", "ds t=0", "ds t=0", "crecv r=0", "crecv r=0"}
+				add(Config{Mode: mode, CDisable: !fc && mode == "fwd", SDisable: !fc && mode == "rev"}, l)
+			}
+		}
 		// raw tunnel server -> real tunnel client
 		for _, shape := range []string{"U", "CS", "SS", "BD"} {
 			for k := 0; k <= 3; k++ {
